@@ -36,6 +36,7 @@ var otherKeys = []Key{
 	{"[1]", false, ""}, {"[1, 2]", false, ""}, {"[true]", false, ""}, {"[]", false, ""}, {"{a: 1}", false, ""}, {"{}", false, ""}, {"[[1]]", false, ""}, {"(1:2)", false, ""}, {`["a"]`, false, ""},
 	{"[1.0]", false, ""}, {"{a: 1, b: 2}", false, ""}, {"%{1: 2}", false, ""}, {"[nil]", false, ""},
 	// arrays that are == although their elements are spelled with different types, and others that only look alike
+	{"[\"NaN\".F]", false, ""}, {"{x: \"NaN\".F}", false, ""}, {"[[\"NaN\".F], 1]", false, ""},
 	{"[0.0]", false, ""}, {"[-0.0]", false, ""}, {"[false]", false, ""}, {"[0]", false, ""}, {"[1, 2.0]", false, ""}, {"[[true]]", false, ""}, {`["1"]`, false, ""}, {"{a: 1.0}", false, ""}, {"{a: true}", false, ""},
 }
 
@@ -51,13 +52,33 @@ type Operand struct {
 }
 
 type Case struct {
-	Kind  string    `json:"kind"` // map | obj
-	Pairs []Pair    `json:"pairs"`
-	Ops   []Operand `json:"ops"`
-	Vars  bool      `json:"vars,omitempty"` // the ** operands are bound to variables first and re-inspected afterwards
-	Via   string    `json:"via,omitempty"`  // map kind: "" literal with ** operands | digest | listchain (the operands' pairs are merged by Map#digest / a list chain with a map chain argument)
-	Got   string    `json:"got,omitempty"`
-	Want  string    `json:"want,omitempty"`
+	Kind    string    `json:"kind"` // map | obj
+	Pairs   []Pair    `json:"pairs"`
+	Ops     []Operand `json:"ops"`
+	KeyVars bool      `json:"key_vars,omitempty"` // non-scalar own keys are bound to variables (one per spelling) and used through them
+	Vars    bool      `json:"vars,omitempty"`     // the ** operands are bound to variables first and re-inspected afterwards
+	Via     string    `json:"via,omitempty"`      // map kind: "" literal with ** operands | digest | listchain (the operands' pairs are merged by Map#digest / a list chain with a map chain argument)
+	Got     string    `json:"got,omitempty"`
+	Want    string    `json:"want,omitempty"`
+}
+
+// keyVarName: non-scalar keys of a case with KeyVars are bound to variables first (one variable per spelling), so that
+// the literal and the later lookups use the very same key object.
+func keyVarName(src string) string { return fmt.Sprintf("kv%x", hash32(src)) }
+
+func hash32(s string) uint32 {
+	h := uint32(2166136261)
+	for i := 0; i < len(s); i++ {
+		h = (h ^ uint32(s[i])) * 16777619
+	}
+	return h
+}
+
+func (c Case) keyRef(k Key) string {
+	if c.KeyVars && !k.Scalar {
+		return keyVarName(k.Src)
+	}
+	return k.Src
 }
 
 func litMap(ps []Pair, extra []string) string {
@@ -123,6 +144,13 @@ func (c Case) source() string {
 	}
 	if c.Kind == "obj" {
 		return litObj(c.Pairs, extra)
+	}
+	if c.KeyVars {
+		own := []string{}
+		for _, p := range c.Pairs {
+			own = append(own, fmt.Sprintf("%s: %d", c.keyRef(p.K), p.V))
+		}
+		return "%{" + strings.Join(append(own, extra...), ", ") + "}"
 	}
 	return litMap(c.Pairs, extra)
 }
@@ -304,6 +332,17 @@ func judgeRaw(c *Case) (sig, detail string) {
 			before = append(before, w.ins(c.describeOp(i)))
 		}
 	}
+	if c.KeyVars {
+		all := append([]Pair{}, c.Pairs...)
+		for _, op := range c.Ops {
+			all = append(all, op.Pairs...)
+		}
+		for _, p := range all {
+			if !p.K.Scalar {
+				in.Run(keyVarName(p.K.Src)+" := "+p.K.Src, interp.Opts{Env: w.env})
+			}
+		}
+	}
 	if o := in.Run("m := "+src, interp.Opts{Env: w.env}); o.Kind != interp.Value {
 		if o.Kind == interp.HostPanic {
 			return c.Kind + ":host-panic", src + " gave " + o.Show()
@@ -392,8 +431,12 @@ func judgeRaw(c *Case) (sig, detail string) {
 			}
 		}
 		for _, e := range all {
-			if got := w.ins("m[" + e.k.Src + "]"); got != fmt.Sprint(e.v) {
-				return fail("index", "m["+e.k.Src+"] = "+got, fmt.Sprint(e.v))
+			wantV := fmt.Sprint(e.v)
+			if !e.k.Scalar && !w.equal(e.k.Src, e.k.Src) {
+				wantV = "nil" // a key that is not == to itself (it contains NaN) is never found again, not even through the same object
+			}
+			if got := w.ins("m[" + c.keyRef(e.k) + "]"); got != wantV {
+				return fail("index", "m["+c.keyRef(e.k)+"] = "+got, wantV)
 			}
 		}
 		// absent keys: scalar ones that do not name a property of the map, and non-scalar ones
@@ -409,6 +452,9 @@ func judgeRaw(c *Case) (sig, detail string) {
 					// a non-scalar key is found through every spelling that is == to the stored one
 					for _, e := range all {
 						if !e.k.Scalar && w.equal(k.Src, e.k.Src) {
+							if !w.equal(k.Src, k.Src) {
+								break
+							}
 							if got := w.ins("m[" + k.Src + "]"); got != fmt.Sprint(e.v) {
 								return fail("index-by-equal-key", "m["+k.Src+"] = "+got+" (stored under "+e.k.Src+")", fmt.Sprint(e.v))
 							}
@@ -425,6 +471,22 @@ func judgeRaw(c *Case) (sig, detail string) {
 			}
 			if got := w.ins("m[" + k.Src + "]"); got != "nil" {
 				return fail("absent-key", "m["+k.Src+"] = "+got, "nil")
+			}
+		}
+		// a child of the map made by bear: its own properties are found by indexing with their names, the stored keys still are
+		if o := in.Run("mc := m.bear({zq: 7, _h: 8})", interp.Opts{Env: w.env}); o.Kind == interp.Value {
+			for _, q := range [][2]string{{"mc['zq]", "7"}, {"mc[\"zq\"]", "7"}, {"mc['_h]", "8"}, {"mc.zq", "7"}, {"mc['nosuchname9]", "nil"}} {
+				if got := w.ins(q[0]); got != q[1] {
+					return fail("child-own-property-by-index", q[0]+" = "+got, q[1])
+				}
+			}
+			for _, e := range all {
+				if !e.k.Scalar && !w.equal(e.k.Src, e.k.Src) {
+					continue
+				}
+				if got := w.ins("mc[" + e.k.Src + "]"); got != fmt.Sprint(e.v) {
+					return fail("child-index", "m.bear({zq: 7, _h: 8})["+e.k.Src+"] = "+got, fmt.Sprint(e.v))
+				}
 			}
 		}
 		// printing describes exactly that set of pairs
@@ -514,6 +576,22 @@ func judgeRaw(c *Case) (sig, detail string) {
 			return fail("index", fmt.Sprintf("m[%q] = %s", n, got), fmt.Sprint(first[n]))
 		}
 	}
+	// derived objects: deleting one name leaves exactly the other pairs (whatever the names are)
+	for i, n := range pub {
+		if !isIdent(n) || i > 3 {
+			continue
+		}
+		rest := []string{}
+		for _, x := range pub {
+			if x != n {
+				rest = append(rest, x)
+			}
+		}
+		// (del rebuilds the object from its public pairs: private ones are not asserted either way)
+		if got, want := w.ins(fmt.Sprintf("m.del('%s).items", n)), render(rest, "items"); got != want {
+			return fail("del", fmt.Sprintf("m.del('%s).items = %s", n, got), want)
+		}
+	}
 	// printing: every pair of the model (public and private) and nothing else
 	printed := w.ins("m.repr")
 	var s string
@@ -594,7 +672,9 @@ func splitTop(s string) []string {
 // object property names: identifier-like names only. Names that are not identifiers ("b c", "", operators) are filed
 // under the private keys by the implementation; the statement only speaks about names starting with `_`, so the
 // check abstains on them.
-var objKeys = []Key{{Src: "a"}, {Src: "b"}, {Src: "c"}, {Src: "B"}, {Src: "a1"}, {Src: "aa"}, {Src: "_p"}, {Src: "_q"}, {Src: "__"}, {Src: "'a"}, {Src: `"a"`}, {Src: `"zz"`}, {Src: `"_q"`}, {Src: "'_p"}, {Src: "x?"}, {Src: "y!"}, {Src: "a_b"}}
+var objKeys = []Key{{Src: "a"}, {Src: "b"}, {Src: "c"}, {Src: "B"}, {Src: "a1"}, {Src: "aa"}, {Src: "_p"}, {Src: "_q"}, {Src: "__"}, {Src: "'a"}, {Src: `"a"`}, {Src: `"zz"`}, {Src: `"_q"`}, {Src: "'_p"}, {Src: "x?"}, {Src: "y!"}, {Src: "a_b"},
+	// names that are also properties reachable from maps and arrays (an own property is still just a pair of the object)
+	{Src: "len"}, {Src: "max"}, {Src: "first"}, {Src: "sum"}, {Src: "last"}}
 
 func genPairs(t *rapid.T, universe []Key, max int, base int, label string) []Pair {
 	n := rapid.IntRange(0, max).Draw(t, label+"n")
@@ -640,7 +720,9 @@ func genCase(t *rapid.T) Case {
 		return c
 	}
 	c.Pairs = genMapKeys(t, 12, 100, "own")
+	c.KeyVars = rapid.IntRange(0, 3).Draw(t, "keys through variables") == 0
 	if rapid.IntRange(0, 5).Draw(t, "via digest") == 0 {
+		c.KeyVars = false
 		// the second batch of pairs arrives through Map#digest (what a list chain with a map chain argument calls)
 		c.Via = rapid.SampledFrom([]string{"digest", "listchain"}).Draw(t, "via")
 		c.Vars = false
